@@ -500,15 +500,15 @@ func c19Scenarios(seed int64, thorough bool) []c19Scn {
 		{Sessions: 2, Conns: 1, Streams: 1, Link: "tls", Method: EncryptionMethodChaha20Poly1305, Tx: c19Dir{2000, B, 1}, Rx: c19Dir{100000, B, 0}, DurS: 20},
 		{Sessions: 1, Conns: 4, Streams: 3, Link: "msg", Method: EncryptionMethodAES128GCM, Tx: c19Dir{100000, U, 0}, Rx: c19Dir{2000, B, 16000}, DurS: 30},
 		{Sessions: 3, Conns: 2, Streams: 1, Link: "tls", Method: EncryptionMethodAES256GCM, Tx: c19Dir{20000, B, 1}, Rx: c19Dir{100000, U, 100}, DurS: 10},
-		{Sessions: 2, Conns: 2, Streams: 2, Link: "msg", Method: EncryptionMethodChaha20Poly1305, Tx: c19Dir{100000, B, 100}, Rx: c19Dir{20000, B, 1}, DurS: 10},
+		{Sessions: 2, Conns: 2, Streams: 2, Link: "msg", Method: EncryptionMethodChaha20Poly1305, Tx: c19Dir{100000, B, 1400}, Rx: c19Dir{20000, B, 100}, DurS: 10},
 		{Sessions: 1, Conns: 3, Streams: 2, Link: "tls", Method: EncryptionMethodAES128GCM, Tx: c19Dir{20000, I, 100}, Rx: c19Dir{2000, M, 1400}, DurS: 25},
 	}
 	rng := kit.NewRng(seed)
 	rates := []int64{2000, 20000, 100000}
 	pats := []string{B, B, U, M}
-	extra, evBudget := 5, int64(9000)
+	extra, evBudget := 5, int64(3000)
 	if thorough {
-		extra, evBudget = 70, 40000
+		extra, evBudget = 60, 25000
 	}
 	for len(base) < 9+extra {
 		sc := c19Scn{Sessions: 1 + rng.Intn(3), Conns: 1 + rng.Intn(4), Streams: 1 + rng.Intn(3),
